@@ -26,6 +26,7 @@ func genAll() {
 	genAccess()
 	genResolveSrc()
 	genResolverSrc()
+	genDecisionSrc()
 	genFrag()
 	genPanics()
 	genRestoreSrc()
